@@ -205,6 +205,20 @@ async def _main(case, obs, loop, net):
                         rec["app_cancelled"] = True
                     except Exception:
                         pass
+            elif kind == "send_bad":
+                # a record the producer has to refuse (timestamp of the wrong type): the call raises, and the records
+                # accepted before and after it are not affected
+                _, tname, part = op
+                rec = {"id": (ti, oi * 1000), "task": ti, "idx": oi * 1000, "topic": tname, "req_partition": part,
+                       "key": None, "ts": None, "headers": [], "t_call": loop._vtime, "accepted": False, "bad": True}
+                obs.sends.append(rec)
+                rec["value"] = make_value(ti, oi * 1000, 0)
+                try:
+                    fut = await producer.send(tname, rec["value"], partition=part, timestamp_ms="not-a-number")
+                except Exception as e:
+                    rec["send_error"] = (type(e).__name__, repr(e))
+                    continue
+                track(rec, fut)
             elif kind == "batch":
                 _, tname, part, n, pad = op
                 b = producer.create_batch()
@@ -338,13 +352,16 @@ def strategy(focus, wrap=False):
     @st.composite
     def cases(draw):
         idem = True if wrap else draw(st.booleans())
+        outage = focus_arg == "outage"
+        if outage:
+            idem = draw(st.integers(0, 3)) > 0
         cancel = focus_arg == "cancel"
         if cancel:
             idem = draw(st.integers(0, 3)) == 0
-        nodes = draw(st.integers(1, 3))
+        nodes = draw(st.integers(2, 3)) if outage else draw(st.integers(1, 3))
         ntopics = draw(st.integers(1, 2))
         topics = []
-        focus = "futures" if cancel else focus_arg
+        focus = "futures" if cancel else ("order" if outage else focus_arg)
         produce_max = draw(st.sampled_from([7, 7, 7, 5, 3, 2, 1, 0])) if focus == "futures" else 7
         if idem and produce_max < 3:
             produce_max = 3
@@ -400,6 +417,8 @@ def strategy(focus, wrap=False):
                     ops.append(["batch", t["name"], part, draw(st.integers(1, 4)), draw(st.sampled_from([0, 20]))])
                 elif r == 18 and focus == "futures":
                     ops.append(["stop"])
+                elif r == 19 and focus == "futures":
+                    ops.append(["send_bad", t["name"], part])
                 else:
                     ops.append(["sleep", draw(pauses)])
             tasks.append(ops)
@@ -444,6 +463,17 @@ def strategy(focus, wrap=False):
             at = draw(st.sampled_from([0.0, 0.01, 0.05, 0.2, 0.6]))
             env.append({"at": at, "ev": "leader_gone", "topic": t["name"], "partition": draw(st.integers(0, t["partitions"] - 1)),
                         "back_at": at + draw(st.sampled_from([0.03, 0.2, 0.8]))})
+        if outage:
+            # a broker is already refusing connections when the first records are sent (the very first attempt of a
+            # batch ends in NodeNotReadyError) and comes back while the application keeps sending
+            n = draw(st.integers(0, nodes - 1))
+            t0 = draw(st.sampled_from([0.003, 0.008]))
+            env = [e for e in env if e["ev"] not in ("node_down", "node_up")]
+            env.append({"at": t0, "ev": "node_down", "node": n, "blackhole": draw(st.integers(0, 4)) == 0})
+            env.append({"at": t0 + draw(st.sampled_from([0.03, 0.08, 0.2, 0.6])), "ev": "node_up", "node": n})
+            d0 = draw(st.sampled_from([0.012, 0.02, 0.04]))
+            tasks = [[["sleep", d0]] + ops for ops in tasks]
+            cfg["linger_ms"] = draw(st.sampled_from([0, 0, 5]))
         start_seq = {}
         if wrap:
             for t in topics:
